@@ -197,7 +197,7 @@ def _run_eos(case, ren, nested):
     if set(new.V) != set(V) | set(ends):
         fails.append(_fail("add_EOS: vocabulary is V + EOS", inp0, new.V, set(V) | set(ends)))
     nrules = rules_of(new)
-    maxlen = (p["maxlen"] if len(V) <= 2 else 2) + (1 if nested else 0)
+    maxlen = (p["maxlen"] if len(V) <= 2 else 2) + (1 if nested and TIER == "thorough" else 0)
     if nested and len(V) + 2 > 4:
         maxlen = 3
     D = Poly.D
